@@ -223,7 +223,22 @@ class _Fn:
             if at is None:
                 return False
         if isinstance(e, ast.Name):
+            if e.id in getattr(self, "_comp_vars", ()):
+                return True
             return self.name_definite(e.id, at)
+        if isinstance(e, (ast.ListComp, ast.GeneratorExp)) and len(e.generators) == 1 and isinstance(e.generators[0].target, ast.Name):
+            # [list(bar) for bar in A]: the rows / elements of a definite array, re-packed without conversion
+            g = e.generators[0]
+            if not self.definite(g.iter, at, depth + 1):
+                return False
+            saved = getattr(self, "_comp_vars", frozenset())
+            self._comp_vars = saved | {g.target.id}
+            try:
+                return self.definite(e.elt, at, depth + 1)
+            finally:
+                self._comp_vars = saved
+        if isinstance(e, (ast.List, ast.Tuple)) and e.elts:
+            return all(self.definite(x, at, depth + 1) for x in e.elts)
         if isinstance(e, ast.Subscript) and isinstance(e.value, ast.Call) and isinstance(e.slice, ast.Constant) \
                 and isinstance(e.slice.value, int) and self.p.functions.get(self.res(e.value.func) or "") is not None:
             return self._helper_returns_definite(e.value, e.slice.value, at, depth)
